@@ -242,6 +242,26 @@ def c15(m, run):
                 t.add((su, sv, sp), run1(m, '_tessellate.make_triangle_mesh', [pts(su * sv, 3), su, sv],
                                          {'vertex_spacing': sp, 'tessellate_func': Py(tslfunc, 'tsl')}, post, extra))
     finish(t, 'geomdl/_tessellate.py in _tessellate.make_triangle_mesh')
+    # a tessellation function may hand grid vertices back in its vertex list (the shipped trimming tessellator does): the final vertex
+    # list still holds every vertex object once, numbered 0..N-1 in list order
+    def tsl_dup(sk, node, v1, v2, v3, v4, vidx, tidx, trims, targs):
+        extra = Bag('Vertex', id=vidx, data=[Tok('DEF')] * 3, uv=[Tok('DEF')] * 2, vertices=[])
+        t1, t2 = Bag('Triangle', data=[v1._a['id'], v2._a['id'], extra._a['id']]), Bag('Triangle', data=[v1._a['id'], v3._a['id'], v4._a['id']])
+        t1._a['_vs'], t2._a['_vs'] = (v1, v2, extra), (v1, v3, v4)
+        return [v1, extra, v3, v1], [t1, t2]
+    t = Tally(run, 'FN2.each-vertex-once', '_tessellate.make_triangle_mesh :: tessellator that returns grid vertices again',
+              'sample sizes 2..%d x spacing 1' % min(smax, 9))
+    for size in range(2, min(smax, 9) + 1):
+        def post(sk, out):
+            verts, tris = out
+            if len({id(v) for v in verts}) != len(verts):
+                raise Violation('FN2', 'a vertex object occurs more than once in the final vertex list (it is renumbered several times and its last id wins)')
+            ids = [v._a['id'] for v in verts]
+            if ids != list(range(len(verts))):
+                raise Violation('FN2', 'vertex ids are not 0..N-1 in list order: %r...' % (ids[:8],))
+        t.add((size,), run1(m, '_tessellate.make_triangle_mesh', [pts(size * size, 3), size, size],
+                            {'vertex_spacing': 1, 'tessellate_func': Py(tsl_dup, 'tsl')}, post, extra))
+    finish(t, 'geomdl/_tessellate.py in _tessellate.make_triangle_mesh')
 
 
 # ====================================================================================== C03: order-type enumeration
